@@ -377,6 +377,13 @@ def cond_is(e: ast.AST, text: str, defs: dict | None = None) -> bool:
 
 
 # ---------------------------------------------------------------- keyword arguments incl. **dict-literal locals
+def subst_expr(e: ast.AST, defs: dict | None, depth: int = 4) -> ast.AST:
+    """Copy of e with single-definition locals replaced by their definitions (the AST counterpart of canon's text)."""
+    import copy as _copy
+
+    return _Subst(defs or {}, depth).visit(_copy.deepcopy(e))
+
+
 def effective_keywords(call: ast.Call, defs: dict[str, list[ast.AST]] | None = None) -> dict[str, ast.AST]:
     """Keyword arguments of a call, including those passed through `**name` when `name` is a local bound once to a
     dict literal / dict(...) call (later item stores `name['k'] = v` are merged too when found in `defs['name[]']`)."""
